@@ -104,17 +104,23 @@ CLAIMED = {
         "package-level state are not modelled.",
    note="Lean kernel + propext/Quot.sound; map order is quantified in the model, sampled on the implementation.", technique=T, design="§4 C12"),
  "C01": dict(
-   text="Partial. Lean proof of the print->parse round trip for M-Core (opaque type definitions + integer globals: all names, widths, values, both literal notations) built on the "
-        "leaf theorems (C09, C11 decode/inject, C20); M-Core text is compared byte for byte with the implementation. The rest of the grammar is tied by correspondence: "
-        "generated typed modules must be byte-exact fixpoints and closed graphs, corpus and shuffled modules stable.",
+   text="Partial. Lean proof of the print->parse round trip for two fragments: M-Core (opaque type definitions + integer globals: all names, widths, values, both literal "
+        "notations) and M-Core-2 (identified struct type definitions with bodies of arbitrarily nested types; global variables / constants of ANY type initialised by integers "
+        "of any width, zeroinitializer, null, undef or arbitrarily nested struct / packed struct / array / vector constants), built on the leaf theorems (C09, C11 decode/inject, "
+        "C16 type reader, C20) and on byte-level readers of types and constants proved to invert the printers for every type and constant. Model text is compared byte for byte "
+        "with the implementation; the readers are compared with the real parser on printed and mutated texts. The rest of the grammar is tied by correspondence: generated "
+        "typed modules must be byte-exact fixpoints and closed graphs, corpus and shuffled modules stable, every typed result used at LLVM's type.",
    note="Lean kernel + propext/Quot.sound/Classical.choice; M-Core hand-written; llir/ll lexer+parser trusted to deliver the tokens; outside M-Core no theorem.", technique=T, design="§4 C01"),
  "C02": dict(
-   text="Partial. Lean proof for M-Core that one parse+print step is a normal form (canon idempotent, second parse identical, text token-identical); correspondence: y = print(parse(x)) "
-        "accepted and print(parse(y)) == y on generated modules in canonical and non-canonical spellings and on the corpus.",
+   text="Partial. Lean proof for M-Core and M-Core-2 (struct type definitions with bodies, globals of any type, nested aggregate constants) that one parse+print step is a normal "
+        "form (canon idempotent, second parse identical, text token-identical); correspondence: y = print(parse(x)) accepted and print(parse(y)) == y on generated modules in "
+        "canonical and non-canonical spellings (incl. split / repeated attribute groups) and on the corpus.",
    note="as C01.", technique=T, design="§4 C02"),
  "C03": dict(
-   text="Partial. Lean proof that constructed M-Core modules print to tokens the parser maps back to exactly what was constructed, and (C06) that constructors compute LLVM's type on "
-        "every well-typed operand tuple; correspondence on construction programs (API-built modules, every instruction constructor, constructed vs parsed numbering).",
+   text="Partial. Lean proof that constructed M-Core and M-Core-2 modules (struct type definitions, globals with nested aggregate constants built through the constant constructors) "
+        "print to text the parser maps back to exactly what was constructed, that (C06) constructors compute LLVM's type on every well-typed operand tuple, and that the type "
+        "spelled at call / invoke / callbr sites is read back by LLVM as the callee's signature; correspondence on construction programs (API-built modules, every instruction "
+        "constructor, call sites on generated signatures, constructed vs parsed numbering).",
    note="as C01 plus the C06/C08 models.", technique=T, design="§4 C03"),
  "C14": dict(
    text="Lean proof over M-History (all editing histories, all observer placements): printing twice is idempotent; the text of a successful print depends only on the "
